@@ -116,7 +116,9 @@ def buildLine (e : Str) : String :=
     | .error _ => "panic"
     | .ok (some (k, sp)) => s!"err rule:{k.code} [{sp.start}+{sp.len}]"
     | .ok none =>
-      if compilePanics t || nestPanics t then "panic" else
+      -- a repetition bound beyond u32 or a nesting depth beyond the regex parser's limit: `compile` reports an
+      -- oversized program (until repair 13 this was the panic "failed to compile glob")
+      if compilePanics t || nestPanics t then "err compile []" else
       s!"ok {t.dump} | {hexStr (compilePattern t).toList} | {queriesStr t} sem={if hasSemanticLiterals t then 1 else 0} empty={if isEmptyTok t then 1 else 0} caps=[{capsStr t}]"
 
 def cmdB (exprHex : String) : String := buildLine (unhexStr exprHex)
